@@ -705,7 +705,9 @@ class Enum(DataType):
 
     type = pl.Enum
 
-    categories: pl.Series
+    # the boxed ``pl.Enum`` type carries the categories: two Series can be
+    # neither compared for equality as a whole nor hashed
+    categories: pl.Series = dataclasses.field(compare=False)
 
     def __init__(  # pylint:disable=super-init-not-called
         self,
